@@ -10,12 +10,12 @@ KANI_NOTE = ("Trusted: rustc/Kani 0.68/CBMC 6.11/cadical; stand-in crates memchr
              "containers and the real memchr before a VIOLATION line is printed.")
 
 CHECKS = {
- "C02": dict(level="model_checking", engine="kani",
+ "C02": dict(level="model_checking", engine="kani+mirvc",
     text="Bounded model checking (Kani/CBMC) of the real try_apply_hunk + HunkView against a reference placement written from the "
          "property: for each concrete shape (file <= 5 lines, old side <= 5, fuzz level <= 2, both directions) the SAT solver decides "
          "every line-equality pattern, stated line, previous offset and frozen line at once; HunkView::new's fuzz arithmetic is decided "
-         "for all 64-bit values without bound.",
-    technique="bounded model checking of the real code (Kani/CBMC, SAT) with symbolic contents and positions, differential against a reference",
+         "for all 64-bit values without bound. Engine B: the hand-over between hunks in apply_modify (previous offset = the offset just reported, frozen line = line + old-side length - trailing context of the view that matched, Forward/Revert views, current fuzz level) is decided over MIR for any number of hunks; candidates are replayed by a native random sweep against the reference.",
+    technique="bounded model checking of the real code (Kani/CBMC, SAT) with symbolic contents and positions, differential against a reference; SMT-decided VC over MIR for the inter-hunk bookkeeping",
     ref="DESIGN.md §2 C02"),
 }
 
@@ -55,11 +55,11 @@ def kani_check(text, ref, technique="bounded model checking of the real code (Ka
     return dict(level="model_checking", engine=engine, text=text, ref=ref, technique=technique)
 
 CHECKS["C01"] = kani_check("Decided as a chain of solver-checked lemmas with fully asserted interfaces: (1) every hunk text of a bounded edit script (symbolic line bytes, `\\ No newline` either side, "
-    "empty-side start-line convention) parses to exactly its old/new sequences, context counts and 0-based start lines; (2) every accepted header dialect yields the right kind/names/rename flag and wires the hunks through parse_patch; "
-    "parse_filename keeps name bytes; (3) such Hunks applied to an A assembled from their own old sides apply at offset 0 / fuzz 0, give exactly B, and applied reversed to B give A (modify, create, delete); line splitting keeps terminators.",
-    "DESIGN.md §2 C01", technique="bounded model checking (Kani/CBMC) of parser and apply code, composed lemma by lemma")
+    "empty-side start-line convention) parses to exactly its old/new sequences, context counts and 0-based start lines; (2) parse_filename keeps name bytes (header dialect -> kind/names end to end does not fit: thorough tier attempts it, see evidence); "
+    " (3) such Hunks applied to an A assembled from their own old sides apply at offset 0 / fuzz 0, give exactly B, and applied reversed to B give A (modify, create, delete); line splitting keeps terminators.",
+    "DESIGN.md §2 C01", technique="bounded model checking (Kani/CBMC) of parser and apply code, composed lemma by lemma; SMT-decided VC over MIR for the inter-hunk bookkeeping", engine="kani+mirvc")
 CHECKS["C03"] = kani_check("Real apply_modify on two-hunk file patches (N=3 with both stated lines symbolic: every offset / overlap arrangement; N=4 with stated lines from the matrix), symbolic line bytes: "
-    "the resulting content equals a changed-regions-only reconstruction from the hunk reports; failed hunks contribute nothing; no panic/overflow.", "DESIGN.md §2 C03")
+    "the resulting content equals a changed-regions-only reconstruction from the hunk reports; failed hunks contribute nothing; no panic/overflow. Engine B: the hand-over between hunks in apply_modify (previous offset = the offset just reported, frozen line = line + old-side length - trailing context of the view that matched, Forward/Revert views, current fuzz level) is decided over MIR for any number of hunks; candidates are replayed by a native random sweep against the reference.", "DESIGN.md §2 C03", engine="kani+mirvc")
 CHECKS["C04"] = dict(level="model_checking", engine="kani+mirvc",
     text="apply followed by rollback is the identity on (content, deleted, permissions) for every content / permission value inside each concrete shape: modify (one hunk with symbolic stated line, two hunks), "
          "create/delete with every name/file-state combination and symbolic modes, rename undo via move_out/move_in; rollback's panic is a checked property. LIFO over a stack follows by composition. "
@@ -91,7 +91,7 @@ CHECKS["C19"] = dict(level="model_checking", engine="kani+mirvc",
     technique="SMT-decided VCs over MIR (wiring, decision table) plus bounded model checking (Kani/CBMC) of strip and of concrete refusals", ref="DESIGN.md §2 C19", note=KANI_NOTE + " " + MIR_NOTE)
 
 CHECKS["C20"] = kani_check("The same file patch is applied at fuzz limit F and F+1 (F in {0,1}) on equal copies with symbolic line bytes, for every stated line 0..4 of a 4-line file: ok at F implies ok at F+1 with identical per-hunk "
-    "(line, offset, fuzz) and identical content; the recorded fuzz is the least level at which the reference placement finds a position.", "DESIGN.md §2 C20")
+    "(line, offset, fuzz) and identical content; the recorded fuzz is the least level at which the reference placement finds a position. Engine B: the hand-over between hunks in apply_modify (previous offset = the offset just reported, frozen line = line + old-side length - trailing context of the view that matched, Forward/Revert views, current fuzz level) is decided over MIR for any number of hunks; candidates are replayed by a native random sweep against the reference.", "DESIGN.md §2 C20", engine="kani+mirvc")
 
 NOT_APPLICABLE = {
  "C06": "thread interleavings over rayon's pool and real files: Kani does not model threads, and a hand model of the workers would not be the real code (DESIGN.md §2 C06)",
